@@ -2,6 +2,7 @@ package wire
 
 import (
 	"errors"
+	"fmt"
 
 	"github.com/jackc/pgx/v5/pgtype"
 )
@@ -22,13 +23,24 @@ type Parameter struct {
 	value  []byte
 }
 
-func (p Parameter) Scan(oid uint32) (any, error) {
+func (p Parameter) Scan(oid uint32) (_ any, err error) {
 	typed, has := p.types.TypeForOID(oid)
 	if !has {
 		return nil, ErrUnknownOid
 	}
 
+	defer recoverDecode(&err)
 	return typed.Codec.DecodeValue(p.types, oid, int16(p.format), p.value)
+}
+
+// recoverDecode recovers a panic of a type codec and reports it as a error.
+// The values which are decoded are send by the client, some codecs panic
+// instead of returning a error whenever a (binary) value has been truncated.
+func recoverDecode(err *error) {
+	r := recover()
+	if r != nil {
+		*err = fmt.Errorf("unable to decode the given value: %v", r)
+	}
 }
 
 func (p Parameter) Format() FormatCode {
